@@ -48,6 +48,9 @@ pub enum Op {
     Trap2 { var: usize },
     SqTrap2 { var: usize },
     BilinCheck2 { var: usize, a: f64, b: f64, c: f64, k: f64 },
+    /// make the sibling 2-D mesh (same node counts and extents, mirrored interior spacing, its own
+    /// data) the one the following 2-D operations act on — and back
+    Swap2,
 }
 
 #[derive(Clone, Debug)]
@@ -114,7 +117,12 @@ const U: f64 = f64::EPSILON / 2.0;
 
 fn gen_grid(rng: &mut Rng, min_nodes: usize, max_nodes: usize, coarse: bool) -> Vec<f64> {
     let n = rng.urange(min_nodes, max_nodes);
-    let mut x = vec![rng.range(-64, 64) as f64 / 8.0];
+    let mut x0 = rng.range(-64, 64) as f64 / 8.0;
+    if rng.chance(0.15) {
+        // grids far from the origin (still dyadic): absolute thresholds must not become relative ones
+        x0 += (2.0f64).powi(rng.range(6, 13) as i32) * if rng.chance(0.5) { -1.0 } else { 1.0 };
+    }
+    let mut x = vec![x0];
     for _ in 1..n {
         let e = if coarse { rng.range(0, 4) } else { rng.range(0, 9) };
         let m = rng.range(1, 4) as f64;
@@ -229,12 +237,13 @@ impl C19 {
                     2 | 3 => Op::IdxSet1 { m, node: rng.usize_below(64), var: rng.usize_below(4), val: gen_val(rng) },
                     4 => Op::Get1 { m, node: rng.usize_below(64) },
                     5 => Op::Nodes1 { m },
-                    6 | 7 | 8 => Op::Interp1 { m, cell: rng.usize_below(64), kind: rng.below(4) as u8, frac: rng.unit() },
+                    6 | 7 | 8 => Op::Interp1 { m, cell: rng.usize_below(64), kind: rng.below(6) as u8, frac: rng.unit() },
                     9 | 10 => Op::Trap1 { m, var: rng.usize_below(4) },
                     _ => Op::LinCheck1 { m, var: rng.usize_below(4), a: rng.range(-20, 20) as f64, b: rng.range(-8, 8) as f64 },
                 }
             } else {
-                match rng.below(14) {
+                match rng.below(16) {
+                    14 | 15 => Op::Swap2,
                     0 | 1 => Op::Set2 { i: rng.usize_below(64), j: rng.usize_below(64), vals: (0..4).map(|_| gen_val(rng)).collect() },
                     2 => Op::IdxSet2 { i: rng.usize_below(64), j: rng.usize_below(64), var: rng.usize_below(4), val: gen_val(rng) },
                     3 => Op::Get2 { i: rng.usize_below(64), j: rng.usize_below(64) },
@@ -273,6 +282,8 @@ struct World<'a> {
     pool: Vec<Option<Live1>>,
     m2: Mesh2D<f64>,
     model2: Model2,
+    /// the sibling 2-D mesh that is currently not active
+    other2: Option<(Mesh2D<f64>, Model2)>,
     files: Vec<Option<FileModel>>,
     dir: String,
     op_index: usize,
@@ -496,10 +507,13 @@ impl<'a> World<'a> {
                 let n = l.model.nodes.len();
                 let c = cell % (n - 1);
                 let (xl, xr) = (l.model.nodes[c], l.model.nodes[c + 1]);
-                let x = match kind % 4 {
+                let x = match kind % 6 {
                     0 => xl,
                     1 => xr,
                     2 => 0.5 * (xl + xr),
+                    // just inside the cell, a hair more than 1e-6 away from a node (the closest the property allows)
+                    4 => xr - 1.0e-6 * (1.001 + frac),
+                    5 => xl + 1.0e-6 * (1.001 + frac),
                     _ => {
                         let lo = xl + 1.0e-6;
                         let hi = xr - 1.0e-6;
@@ -507,11 +521,15 @@ impl<'a> World<'a> {
                     }
                 };
                 let got = l.mesh.get_interpolated_vars(x);
-                self.stats.count(match kind % 4 {
+                self.stats.count(match kind % 6 {
                     0 | 1 => "op.interpolate_at_node",
                     2 => "op.interpolate_mid_cell",
+                    4 | 5 => "op.interpolate_1e-6_from_a_node",
                     _ => "op.interpolate_interior",
                 });
+                if xl.abs() > 64.0 {
+                    self.stats.count("probe.interpolation_far_from_origin");
+                }
                 if got.size() != l.model.nvars {
                     return vfail("interpolation", "interp-size", self, format!("get_interpolated_vars({x:e}) returned {} values, expected {}", got.size(), l.model.nvars));
                 }
@@ -710,6 +728,15 @@ impl<'a> World<'a> {
                     return vfail("quadrature", if sq { "sqtrap2" } else { "trap2" }, self, format!("2-D {}trapezium(var {var}) = {got:e}, sum of cell contributions = {want:e} (x {:?} y {:?})", if sq { "square_" } else { "" }, self.model2.x, self.model2.y));
                 }
                 Ok(())
+            }
+            Op::Swap2 => {
+                if let Some((m, model)) = self.other2.take() {
+                    let old_m = std::mem::replace(&mut self.m2, m);
+                    let old_model = std::mem::replace(&mut self.model2, model);
+                    self.other2 = Some((old_m, old_model));
+                    self.stats.count("probe.sibling_2d_mesh_swapped_in");
+                }
+                self.check2("switching to the sibling 2-D mesh")
             }
             Op::BilinCheck2 { var, a, b, c, k } => {
                 let var = var % self.model2.nvars;
@@ -1019,7 +1046,14 @@ impl Prop for C19 {
         ch.str(&format!("{:?}", case));
         stats.seen("nontrivial_cases", ch.finish());
         let dir = DIR.with(|d| d.clone());
-        let mut w = World { stats, disk: disk.clone(), pool: vec![Some(Live1 { mesh: mesh1, model: model1 })], m2, model2, files: vec![None, None, None], dir, op_index: 0, real_dir_made: false, read_bypass: false };
+        let mirror = |g: &Vec<f64>| -> Vec<f64> {
+            let (a, b) = (g[0], g[g.len() - 1]);
+            (0..g.len()).map(|k| a + (b - g[g.len() - 1 - k])).collect()
+        };
+        let (xb, yb) = (mirror(&case.x2), mirror(&case.y2));
+        let sib_model = Model2 { x: xb.clone(), y: yb.clone(), vars: vec![vec![0.0; case.nvars2]; nx * ny], nvars: case.nvars2 };
+        let sib = Mesh2D::<f64>::new(Vector::<f64>::create(xb), Vector::<f64>::create(yb), case.nvars2);
+        let mut w = World { stats, disk: disk.clone(), pool: vec![Some(Live1 { mesh: mesh1, model: model1 })], m2, model2, other2: Some((sib, sib_model)), files: vec![None, None, None], dir, op_index: 0, real_dir_made: false, read_bypass: false };
         let mut verdict = w.check1(0, "construction").and_then(|_| w.check2("construction"));
         let mut prev: Option<&'static str> = None;
         if verdict.is_ok() {
@@ -1193,7 +1227,7 @@ impl Prop for C19 {
     fn required_probes(&self, _tier: Tier) -> Vec<&'static str> {
         vec![
             "read_into_zero_node_mesh", "read_shrinks_reader", "read_grows_reader", "overwrite_with_shorter_file", "non_initial_mesh_written_to_disk", "cross_section_joined_pool",
-            "fault_on_first_write", "fault_on_middle_write", "fault_on_last_write", "two_transient_faults_in_one_call",
+            "fault_on_first_write", "fault_on_middle_write", "fault_on_last_write", "two_transient_faults_in_one_call", "sibling_2d_mesh_swapped_in", "interpolation_far_from_origin",
         ]
     }
 }
@@ -1221,6 +1255,7 @@ fn op_name(op: &Op) -> &'static str {
         Op::Trap2 { .. } => "trap2",
         Op::SqTrap2 { .. } => "sqtrap2",
         Op::BilinCheck2 { .. } => "bilincheck2",
+        Op::Swap2 => "swap2",
     }
 }
 
@@ -1253,6 +1288,7 @@ fn op_to_json(op: &Op) -> Value {
         Op::VarMat { var } => json!({"op":"varmat","var":var}),
         Op::Trap2 { var } => json!({"op":"trap2","var":var}),
         Op::SqTrap2 { var } => json!({"op":"sqtrap2","var":var}),
+        Op::Swap2 => json!({"op":"swap2"}),
         Op::BilinCheck2 { var, a, b, c, k } => json!({"op":"bilincheck2","var":var,"a_bits":f64_hex(*a),"b_bits":f64_hex(*b),"c_bits":f64_hex(*c),"k_bits":f64_hex(*k)}),
     }
 }
@@ -1280,6 +1316,7 @@ fn op_from_json(v: &Value) -> Op {
         "varmat" => Op::VarMat { var: u("var") },
         "trap2" => Op::Trap2 { var: u("var") },
         "sqtrap2" => Op::SqTrap2 { var: u("var") },
+        "swap2" => Op::Swap2,
         _ => Op::BilinCheck2 { var: u("var"), a: hex_f64(&v["a_bits"]), b: hex_f64(&v["b_bits"]), c: hex_f64(&v["c_bits"]), k: hex_f64(&v["k_bits"]) },
     }
 }
